@@ -32,6 +32,13 @@ def stepLine (w : Option SWorld) (t : List String) : Option SWorld × String :=
       let cfg : Cfg := { maxPubs := clamp1 (nat! mp), maxSubs := clamp1 (nat! ms), bufMax := clamp1 (nat! b),
                          hist := nat! h, borrowMax := clamp1 (nat! r), overflow := ov = "1", expired := nat! e }
       (some (SWorld.init cfg (variant == "ipc" || variant == "ipc-slice")), "ok")
+  | ["new", variant, mp, ms, b, h, r, ov, e, pre] =>
+      -- service builder: without safe overflow the buffer must hold the whole history
+      if ov ≠ "1" ∧ clamp1 (nat! b) < nat! h then (none, "err:service:SubscriberBufferMustBeLargerThanHistorySize") else
+      let cfg : Cfg := { maxPubs := clamp1 (nat! mp), maxSubs := clamp1 (nat! ms), bufMax := clamp1 (nat! b),
+                         hist := nat! h, borrowMax := clamp1 (nat! r), overflow := ov = "1", expired := nat! e,
+                         prealloc := some (nat! pre) }
+      (some (SWorld.init cfg (variant == "ipc" || variant == "ipc-slice")), "ok")
   | _ =>
     match w with
     | none => (none, "no-world")
